@@ -29,7 +29,8 @@ type scenario struct {
 	Spare      int        `json:"spare"` // spare capacity given to each slice of the File
 	Goroutines int        `json:"goroutines"`
 	Repeat     int        `json:"repeat"`
-	Pre        [][]string `json:"pre"` // option sets Generate is called with, sequentially, before the measured calls (history)
+	Pre        [][]string `json:"pre"`      // option sets Generate is called with, sequentially, before the measured calls (history)
+	PreFiles   []string   `json:"prefiles"` // other schemas read and generated before the measured calls (history across Files)
 }
 
 func settings(sc *scenario) bebop.GenerateSettings { return settingsOf(sc, sc.Opts) }
@@ -109,6 +110,17 @@ func main() {
 	}
 	f = withSpare(f, sc.Spare)
 	before := snapshot(f)
+	for _, pf := range sc.PreFiles {
+		if ph, err := os.Open(pf); err == nil {
+			if other, _, err := bebop.ReadFile(ph); err == nil {
+				var sink bytes.Buffer
+				_ = other.Validate()
+				_ = other.Generate(&sink, settingsOf(sc, nil))
+				_ = other.Generate(&sink, settingsOf(sc, []string{"GenerateUnsafeMethods", "SharedMemoryStrings"}))
+			}
+			ph.Close()
+		}
+	}
 	for _, pre := range sc.Pre {
 		var sink bytes.Buffer
 		_ = f.Generate(&sink, settingsOf(sc, pre))
